@@ -198,9 +198,9 @@ def cases(ctx):
             if ctx.mine(i):
                 yield "buffer", c
             i += 1
-    for k in range(ctx.share(3000 if quick else 20000)):
+    for k in range(ctx.share(3000 if quick else 100000)):
         yield "buffer", mkcase(rng, "R1")
-    for k in range(ctx.share(300 if quick else 1500)):
+    for k in range(ctx.share(300 if quick else 6000)):
         yield "buffer", mkcase(rng, "R2")
-    for k in range(ctx.share(200 if quick else 1000)):
+    for k in range(ctx.share(200 if quick else 5000)):
         yield "buffer", mkcase(rng, "noise", 0)
